@@ -37,6 +37,8 @@ type memConn struct {
 	addrCalls   int   // RemoteAddr calls: serve() logs the peer when it starts
 	gate        *gate // optional: first RemoteAddr/Read waits for it (forced schedules, C11)
 	gated       bool
+	closeGate   *gate // optional: Close waits for it before taking effect
+	closing     bool  // Close has been called (possibly still held at the gate)
 }
 
 type memAddr string
@@ -156,6 +158,18 @@ func (c *memConn) Write(b []byte) (int, error) {
 }
 
 func (c *memConn) Close() error {
+	c.mu.Lock()
+	g := c.closeGate
+	if c.addrCalls == 0 {
+		g = nil // closed by Serve without ever being served: nothing to hold
+	}
+	first := !c.closing
+	c.closing = true
+	c.cond.Broadcast()
+	c.mu.Unlock()
+	if g != nil && first {
+		g.arrive()
+	}
 	c.mu.Lock()
 	defer c.mu.Unlock()
 	if !c.localClosed {
